@@ -303,9 +303,12 @@ func (e *Env) index(x TVal, i Term) TVal {
 		_, isBool := u.Elem().Underlying().(*types.Basic)
 		isBool = isBool && u.Elem().Underlying().(*types.Basic).Info()&types.IsBoolean != 0
 		h := e.x.mapHeap(e.curHeaps(), key, isBool)
+		hin := e.x.mapHeap(e.curHeaps(), "mapin:"+typeKey(x.T), true)
+		present := And(Not(Eq(x.V.T, "0")), Sel(Sel(hin, x.V.T), i))
 		t := Sel(Sel(h, x.V.T), i)
 		if isBool {
-			return TVal{BoolV(t), u.Elem()}
+			// Go semantics: the zero value when the key is absent (or the map nil)
+			return TVal{BoolV(Ite(present, t, "false")), u.Elem()}
 		}
 		if len(e.x.mem.Leaves(u.Elem())) == 1 {
 			return TVal{e.x.mem.Shape(u.Elem(), []Val{IntV(t)}), u.Elem()}
